@@ -108,6 +108,29 @@ theorem keyword_lookup_eq_meaning (p name : Str) (hp : p.all acValid = true) (hn
   · have : p.isEmpty = false := by cases p <;> simp_all
     rw [this, infix_sentinels_eq_kwMeaning p _ hd.noMarkers hne]; simp
 
+/-- **The Aho-Corasick automaton is substring search.** The model of the library's automaton (trie of the
+dictionary, `fail` = longest proper suffix that is a node, `suffix` = longest proper suffix that is a
+word, `fails[c]` closure, the `Contains` loop) returns `true` exactly when some non-empty dictionary word
+occurs in the input (read through the library's byte table) — for every dictionary and every input. -/
+theorem ac_contains_iff_infix (dict : List Str) (input : Str) :
+    acAuto dict input = true ↔ ∃ w ∈ dict, w ≠ [] ∧ w <:+: input.map acNorm := by
+  rw [acAuto_eq_acContains]
+  simp [acContains, isInfix_iff]
+
+example : acAuto [strOf "abc", strOf "bcd", strOf "c"] (strOf "xbcy") = true ∧
+    acAuto [strOf "abc", strOf "bcd"] (strOf "abxbcxcd") = false ∧ acAuto [[]] (strOf "abc") = false := by decide
+
+/-- what the matcher model executes for a keyword set (the automaton on `^name$`) is `kwMeaning` -/
+theorem keyword_automaton_eq_meaning (p name : Str) (hp : p.all acValid = true) (hn : plainName name = true) :
+    acAuto (normKeyword p) (cHat :: normName name ++ [cDollar]) = kwMeaning p (normName name) := by
+  rw [acAuto_eq_acContains]
+  exact keyword_lookup_eq_meaning p name hp hn
+
+/-- the two alphabets in use have no repeated byte, so the model's table (`idxOf`, first occurrence)
+and Go's (`table[c] = n`, last write) are the same function; the harness checks on every run that the
+real tables' `Size()` equals the number of valid bytes -/
+theorem alphabets_nodup : domainChars.alphabet.Nodup ∧ cidrChars.alphabet.Nodup ∧ acChars.Nodup := by decide
+
 /-- `^k`: the name starts with `k` -/
 theorem keyword_start_anchor (k dom : Str) (hk : NoMarkers k) :
     kwMeaning (cHat :: k) dom = true ↔ k <+: dom := by
